@@ -1,8 +1,8 @@
 (* C20/ProofsFaster.v — FasterTrie: buckets by first (key, value); insert / erase keep the buckets
    equal (as sets without repeated ids) to the stored entries with that first pair; filter returns
    exactly the ids of the compatible stored entries. *)
-From Coq Require Import List Arith Bool Sorted Lia.
-From AIT Require Import C20.Model C20.Spec C20.ProofsLists C20.ProofsTrie C20.ProofsQuery.
+From Coq Require Import List Arith Bool Sorted Lia Permutation.
+From AIT Require Import C20.Model C20.Spec C20.ProofsLists C20.ProofsTrie C20.ProofsQuery C20.Proofs.
 Import ListNotations.
 
 Definition fkey (pf : pfactors) : option (nat * nat) :=
@@ -146,6 +146,159 @@ Proof.
       rewrite !Nat.eqb_refl in E. discriminate.
   - apply store_ok_remove; auto.
   - apply Forall_forall. intros e He. apply filter_In in He. rewrite Forall_forall in Hne. apply Hne. tauto.
+Qed.
+
+(* ---------- the buckets as one multiset: flat = concat (concat keys_) ---------- *)
+
+Definition flat (ll : list (list (list fentry))) : list fentry := concat (concat ll).
+
+Lemma upd_split : forall {A} (l : list A) n g l' x, upd l n g = Some l' -> nth_error l n = Some x ->
+  exists l1 l2, l = l1 ++ x :: l2 /\ l' = l1 ++ g x :: l2.
+Proof.
+  induction l as [|y l IH]; intros n g l' x Hu Hn; destruct n; cbn in Hn; try discriminate.
+  - inversion Hn; subst. cbn [upd] in Hu. inversion Hu; subst. exists [], l. auto.
+  - cbn [upd] in Hu. destruct (upd l n g) as [t|] eqn:E; [|discriminate]. inversion Hu; subst.
+    destruct (IH _ _ _ _ E Hn) as [l1 [l2 [-> ->]]]. exists (y :: l1), l2. auto.
+Qed.
+
+Lemma upd2_flat : forall ll i j g b ll', bucket ll i j = Some b -> upd2 ll i j g = Some ll' ->
+  exists A B, flat ll = A ++ b ++ B /\ flat ll' = A ++ g b ++ B.
+Proof.
+  intros ll i j g b ll' Hb Hu. unfold bucket in Hb. unfold upd2 in Hu.
+  destruct (nth_error ll i) as [row|] eqn:Er; [|discriminate].
+  destruct (upd row j g) as [row'|] eqn:Eu; [|discriminate].
+  destruct (upd_split _ _ _ _ _ Eu Hb) as [r1 [r2 [-> ->]]].
+  destruct (upd_split _ _ _ _ _ Hu Er) as [L1 [L2 [-> ->]]].
+  exists (concat (concat L1) ++ concat r1), (concat r2 ++ concat (concat L2)). unfold flat.
+  rewrite !concat_app. cbn [concat]. rewrite !concat_app. cbn [concat]. rewrite <- !app_assoc. auto.
+Qed.
+
+Lemma NoDup_app_disj : forall {A} (l1 l2 : list A) x, NoDup (l1 ++ l2) -> In x l1 -> In x l2 -> False.
+Proof.
+  induction l1 as [|y l1 IH]; intros l2 x H H1 H2; [destruct H1|]. cbn [app] in H. apply NoDup_cons_iff in H. destruct H as [Hn H].
+  destruct H1 as [->|H1]; [apply Hn; apply in_or_app; auto|eauto].
+Qed.
+
+Lemma NoDup_app_intro : forall {A} (l1 l2 : list A), NoDup l1 -> NoDup l2 -> (forall x, In x l1 -> In x l2 -> False) -> NoDup (l1 ++ l2).
+Proof.
+  induction l1 as [|y l1 IH]; intros l2 H1 H2 Hd; cbn [app]; auto. apply NoDup_cons_iff in H1. destruct H1 as [Hn H1].
+  constructor.
+  - intros Hin. apply in_app_or in Hin. destruct Hin; [auto|]. apply (Hd y); auto. left; auto.
+  - apply IH; auto. intros x Hx. apply Hd. right; auto.
+Qed.
+
+Lemma NoDup_app_r : forall {A} (l1 l2 : list A), NoDup (l1 ++ l2) -> NoDup l2.
+Proof. induction l1 as [|y l1 IH]; intros l2 H; auto. cbn [app] in H. apply NoDup_cons_iff in H. apply IH. tauto. Qed.
+
+Lemma perm_filter : forall {A} (p : A -> bool) l l', Permutation l l' -> Permutation (List.filter p l) (List.filter p l').
+Proof.
+  intros A p l l' H. induction H; cbn [List.filter]; auto.
+  - destruct (p x); auto.
+  - destruct (p x); destruct (p y); auto. apply perm_swap.
+  - eapply perm_trans; eauto.
+Qed.
+
+Lemma filter_id : forall {A} (p : A -> bool) l, (forall x, In x l -> p x = true) -> List.filter p l = l.
+Proof.
+  induction l as [|x l IH]; intros H; cbn [List.filter]; auto. rewrite (H x (or_introl eq_refl)). f_equal. apply IH.
+  intros y Hy. apply H. right; auto.
+Qed.
+
+Lemma swap_remove_perm : forall id b, NoDup (map fst b) ->
+  Permutation (swap_remove id b) (List.filter (fun e => negb (fst e =? id)) b).
+Proof.
+  induction b as [|e t IH]; intros Hnd; cbn [swap_remove List.filter]; auto.
+  cbn [map] in Hnd. apply NoDup_cons_iff in Hnd. destruct Hnd as [Hnotin Hnd].
+  destruct (id =? fst e) eqn:E.
+  - apply Nat.eqb_eq in E. subst id. rewrite Nat.eqb_refl. cbn [negb].
+    rewrite filter_id.
+    + destruct t as [|e2 t']; auto. assert (Hne : e2 :: t' <> []) by discriminate.
+      rewrite (app_removelast_last e Hne) at 3. apply Permutation_cons_append.
+    + intros x Hx. apply negb_true_iff, Nat.eqb_neq. intros Hx'. apply Hnotin. rewrite <- Hx'. apply in_map. auto.
+  - rewrite Nat.eqb_sym in E. rewrite E. cbn [negb]. constructor. auto.
+Qed.
+
+Lemma perm_insert_mid : forall {A} (X b Y st : list A) e,
+  Permutation (X ++ b ++ Y) st -> Permutation (X ++ (b ++ [e]) ++ Y) (st ++ [e]).
+Proof.
+  intros A X b Y st e H. eapply perm_trans; [|apply Permutation_cons_append].
+  replace (X ++ (b ++ [e]) ++ Y) with ((X ++ b) ++ e :: Y) by (rewrite <- !app_assoc; reflexivity).
+  eapply perm_trans; [apply Permutation_sym, Permutation_middle|]. constructor. rewrite <- app_assoc. exact H.
+Qed.
+
+(* full invariant: the placement invariant + the buckets hold the store as a multiset *)
+Definition FInv2 (t : ftrie) (s : sstate) : Prop := FInv t s /\ Permutation (flat (fkeys t)) (snd s).
+
+Lemma store_nodup : forall F c (st : store), store_ok F c st -> NoDup st /\ NoDup (map fst st).
+Proof. intros F c st [Hs _]. pose proof (ssorted_NoDup _ Hs). split; auto. eapply NoDup_map_inv; eauto. Qed.
+
+Lemma ft_insert_sim2 : forall t c st pf, FInv2 t (c, st) -> pf_okb (fF t) pf = true -> negb (length (fst pf) =? 0) = true ->
+  exists t', ft_insert t pf = Ok (t', c) /\ fF t' = fF t /\ FInv2 t' (S c, st ++ [(c, pf)]).
+Proof.
+  intros t c st pf [HInv Hperm] Hpf Hnz. cbn [snd] in Hperm.
+  destruct (ft_insert_sim t c st pf HInv Hpf Hnz) as [t' [E [HF HI]]].
+  exists t'. split; auto. split; auto. split; auto. cbn [snd].
+  destruct HInv as (Hc & Hshape & _). cbn [fst] in Hc.
+  destruct (pf_first _ _ Hpf Hnz) as (k0 & ks & v0 & vs & s & -> & Hk & Hv).
+  destruct (bucket_exists _ _ _ _ _ Hshape Hk Hv) as [b Hb].
+  unfold ft_insert in E. cbn [fst snd] in E.
+  match type of E with context [match ?X with _ => _ end] => destruct X as [ll'|] eqn:Eu end; [|discriminate].
+  inversion E; subst t'. cbn [fkeys].
+  destruct (upd2_flat _ _ _ _ _ _ Hb Eu) as [A [B [E1 E2]]]. rewrite E2. rewrite E1 in Hperm. rewrite Hc.
+  apply perm_insert_mid. exact Hperm.
+Qed.
+
+Lemma ft_erase_sim2 : forall t c st id pf, FInv2 t (c, st) -> pf_okb (fF t) pf = true ->
+  negb (length (fst pf) =? 0) = true -> erase_okb st id pf = true ->
+  exists t', ft_erase t id pf = Ok t' /\ fF t' = fF t /\ FInv2 t' (c, remove_id id st).
+Proof.
+  intros t c st id pf [HInv Hperm] Hpf Hnz Heok. cbn [snd] in Hperm.
+  destruct (ft_erase_sim t c st id pf HInv Hpf Hnz Heok) as [t' [E [HF HI]]].
+  exists t'. split; auto. split; auto. split; auto. cbn [snd].
+  destruct HInv as (Hc & Hshape & Hplace & Hok & _). cbn [fst snd] in *.
+  destruct (pf_first _ _ Hpf Hnz) as (k0 & ks & v0 & vs & s & -> & Hk & Hv).
+  destruct (bucket_exists _ _ _ _ _ Hshape Hk Hv) as [b Hb].
+  unfold ft_erase in E. cbn [fst snd] in E.
+  match type of E with context [match ?X with _ => _ end] => destruct X as [ll'|] eqn:Eu end; [|discriminate].
+  inversion E; subst t'. cbn [fkeys].
+  destruct (upd2_flat _ _ _ _ _ _ Hb Eu) as [A [B [E1 E2]]]. rewrite E2. rewrite E1 in Hperm.
+  destruct (Hplace _ _ _ Hb) as [Hndb Hinb].
+  destruct (store_nodup _ _ _ Hok) as [Hndst _].
+  assert (Hndf : NoDup (A ++ b ++ B)) by (eapply Permutation_NoDup; [apply Permutation_sym; exact Hperm|auto]).
+  assert (Hout : forall e, In e (A ++ B) -> negb (fst e =? id) = true).
+  { intros e He. apply negb_true_iff, Nat.eqb_neq. intros Hid.
+    assert (Hst : In e st). { eapply Permutation_in; [exact Hperm|]. apply in_app_or in He. rewrite !in_app_iff. tauto. }
+    assert (Hb' : In e b). { apply Hinb. split; auto. rewrite (erase_okb_spec _ _ _ _ Heok Hst Hid). reflexivity. }
+    apply in_app_or in He. destruct He as [He|He].
+    - eapply (NoDup_app_disj A (b ++ B)); eauto. apply in_or_app; auto.
+    - apply NoDup_app_r in Hndf. eapply (NoDup_app_disj b B); eauto. }
+  unfold remove_id. eapply perm_trans; [|apply perm_filter; exact Hperm].
+  rewrite !filter_app.
+  rewrite (filter_id _ A) by (intros; apply Hout; apply in_or_app; auto).
+  rewrite (filter_id _ B) by (intros; apply Hout; apply in_or_app; auto).
+  apply Permutation_app_head. apply Permutation_app_tail. apply swap_remove_perm. auto.
+Qed.
+
+Lemma FInv2_size : forall t c st, FInv2 t (c, st) -> ft_size t = length st.
+Proof. intros t c st [_ H]. cbn [snd] in H. unfold ft_size. apply Permutation_length. exact H. Qed.
+
+Lemma FInv2_nodup : forall t c st, FInv2 t (c, st) -> NoDup (map fst (flat (fkeys t))).
+Proof.
+  intros t c st [(_ & _ & _ & Hok & _) H]. cbn [fst snd] in *. destruct (store_nodup _ _ _ Hok) as [_ Hnd].
+  eapply Permutation_NoDup; [apply Permutation_map; apply Permutation_sym; exact H|auto].
+Qed.
+
+Lemma filter_bucket_nodup : forall f b j l, filter_bucket f b j = Ok l -> NoDup (map fst b) ->
+  NoDup l /\ forall id, In id l -> In id (map fst b).
+Proof.
+  intros f. induction b as [|[id pf] b IH]; intros j l H Hnd; cbn [filter_bucket] in H.
+  - inversion H; subst. split; [constructor|intros ? []].
+  - destruct (matchPartial f pf j) as [m| |]; cbn [bind] in H; try discriminate.
+    destruct (filter_bucket f b j) as [r| |] eqn:Er; cbn [bind] in H; try discriminate. inversion H; subst.
+    cbn [map fst] in Hnd. apply NoDup_cons_iff in Hnd. destruct Hnd as [Hn Hnd]. destruct (IH _ _ Er Hnd) as [H1 H2].
+    destruct m.
+    + split; [constructor; auto|]. intros x [<-|Hx]; [left; auto|right; auto].
+    + split; auto. intros x Hx. right; auto.
 Qed.
 
 (* ---------- filter ---------- *)
@@ -328,6 +481,36 @@ Proof.
     destruct (fkey pf) as [[k v]|] eqn:Efk; [|congruence]. exists k, v. split; auto. lia.
 Qed.
 
+Lemma ft_filter_go_nodup : forall t c st f, FInv t (c, st) -> NoDup (map fst (flat (fkeys t))) ->
+  pf_okb (fF t) (query_of_factors f 0) = true ->
+  forall frest i keys' l, skipn i (fkeys t) = keys' -> skipn i f = frest -> i <= length f ->
+  ft_filter_go keys' f frest i = Ok l -> NoDup l.
+Proof.
+  intros t c st f HInv Hnd Hq. pose proof HInv as (Hc & Hshape & Hplace & Hok & Hne). cbn [fst snd] in *.
+  induction frest as [|fv frest IH]; intros i keys' l Hk Hf Hi H.
+  - assert (l = map fst (flat keys')) by (destruct keys'; cbn in H; inversion H; reflexivity). subst l.
+    rewrite <- (firstn_skipn i (fkeys t)) in Hnd. unfold flat in Hnd. rewrite !concat_app, map_app in Hnd.
+    apply NoDup_app_r in Hnd. rewrite Hk in Hnd. exact Hnd.
+  - destruct keys' as [|row keys'']; [discriminate|]. cbn [ft_filter_go] in H.
+    destruct (nth_error row fv) as [b|] eqn:Eb; [|discriminate].
+    destruct (filter_bucket f b (length f - i)) as [l1| |] eqn:E1; cbn [bind] in H; try discriminate.
+    destruct (ft_filter_go keys'' f frest (S i)) as [l2| |] eqn:E2; cbn [bind] in H; try discriminate.
+    inversion H; subst l. destruct (skipn_cons _ _ _ _ Hk) as [Hrow Hk']. destruct (skipn_cons _ _ _ _ Hf) as [Hfi Hf'].
+    assert (Hi' : i < length f) by (apply nth_error_Some; congruence).
+    assert (Hb : bucket (fkeys t) i fv = Some b) by (unfold bucket; rewrite Hrow; auto).
+    destruct (Hplace _ _ _ Hb) as [Hndb Hinb].
+    destruct (filter_bucket_nodup _ _ _ _ E1 Hndb) as [Hnd1 Hin1].
+    apply NoDup_app_intro; auto.
+    + eapply IH; eauto.
+    + intros id H1 H2. apply Hin1 in H1. apply in_map_iff in H1. destruct H1 as [e [He1 He]].
+      apply Hinb in He. destruct He as [Hest Hfk].
+      destruct (ft_filter_go_spec t c st f HInv Hq frest (S i) keys'' Hk' Hf') as [l2' [E2' Hl2]]; [lia|].
+      rewrite E2 in E2'. inversion E2'; subst l2'. apply Hl2 in H2.
+      destruct H2 as [e' [He' [Hid' [[k [v [Hfk' Hge]]] _]]]].
+      assert (e = e') by (eapply store_uniq; eauto; [apply Hok|congruence]). subst e'.
+      rewrite Hfk in Hfk'. inversion Hfk'; subst. lia.
+Qed.
+
 (* ---------- histories ---------- *)
 
 Lemma ft_new_inv : forall F, FInv (ft_new F) (0, []).
@@ -376,4 +559,75 @@ Proof.
   cbn [ft_new fF] in HF. unfold spec_store, spec_state. destruct (fst (spec_run (0, []) ops)) as [c st]. cbn [snd].
   rewrite <- HF in Hq. destruct (ft_filter_sim t c st f HI Hq) as [l [El Hl]].
   exists t, outs, l. auto.
+Qed.
+
+(* ---------- histories, with the multiset invariant: sizes and repetition-free answers ---------- *)
+
+(* outputs agree with the spec's, id lists up to order *)
+Definition out_sim (a b : out) : Prop :=
+  match a, b with
+  | RIds x, RIds y => Permutation x y /\ NoDup y
+  | _, _ => a = b
+  end.
+
+Lemma ft_new_inv2 : forall F, FInv2 (ft_new F) (0, []).
+Proof.
+  intros F. split; [apply ft_new_inv|]. cbn [snd ft_new fkeys]. unfold flat.
+  assert (E : concat (concat (map (fun s => repeat (@nil fentry) s) F)) = []).
+  { induction F as [|s F IH]; cbn [map concat]; auto. rewrite concat_app, IH, app_nil_r.
+    clear. induction s; cbn; auto. }
+  rewrite E. constructor.
+Qed.
+
+Lemma ft_filter_sim2 : forall t c st f, FInv2 t (c, st) -> pf_okb (fF t) (query_of_factors f 0) = true ->
+  exists l, ft_filter t f = Ok l /\ NoDup l /\ Permutation (filter_spec st (query_of_factors f 0)) l.
+Proof.
+  intros t c st f HInv2 Hq. pose proof HInv2 as [HInv _].
+  destruct (ft_filter_sim t c st f HInv Hq) as [l [E Hl]]. exists l. split; auto.
+  assert (Hnd : NoDup l).
+  { eapply (ft_filter_go_nodup t c st f HInv (FInv2_nodup _ _ _ HInv2) Hq f 0 (fkeys t)); eauto. lia. }
+  split; auto. apply NoDup_Permutation; auto.
+  - apply ssorted_NoDup. unfold filter_spec. apply ssorted_map_filter. destruct HInv as (_ & _ & _ & [Hs _] & _). exact Hs.
+  - intros id. rewrite Hl. apply filter_spec_char.
+Qed.
+
+Lemma ft_step_sim2 : forall t s o, FInv2 t s -> ft_op_okb (fF t) s o = true ->
+  exists t' r, ft_step t o = Ok (t', r) /\ fF t' = fF t /\ FInv2 t' (fst (spec_step s o)) /\ out_sim (snd (spec_step s o)) r.
+Proof.
+  intros t [c st] o HInv Hop. destruct o; cbn [ft_op_okb] in Hop; try discriminate; cbn [ft_step spec_step fst snd].
+  - apply andb_true_iff in Hop. destruct Hop as [H1 H2].
+    destruct (ft_insert_sim2 t c st pf HInv H1 H2) as [t' [E [HF HI]]]. rewrite E. cbn [bind]. exists t', (RNat c). cbn. auto.
+  - rewrite !andb_true_iff in Hop. destruct Hop as [[H1 H2] H3]. cbn [snd] in H3.
+    destruct (ft_erase_sim2 t c st id pf HInv H1 H2 H3) as [t' [E [HF HI]]]. rewrite E. cbn [bind]. exists t', RNone. cbn. auto.
+  - apply andb_true_iff in Hop. destruct Hop as [H0 H2]. apply Nat.eqb_eq in H0. subst offset.
+    destruct (ft_filter_sim2 t c st f HInv H2) as [l [E [Hnd Hp]]]. rewrite E. cbn [bind]. exists t, (RIds l). cbn. auto.
+  - exists t, (RNat (ft_size t)). rewrite (FInv2_size t c st HInv). cbn. auto.
+Qed.
+
+Lemma ft_run_sim2 : forall ops t s, FInv2 t s -> ft_hist_okb (fF t) s ops = true ->
+  exists t' outs, ft_run t ops = Ok (t', outs) /\ fF t' = fF t /\ FInv2 t' (fst (spec_run s ops)) /\
+                  Forall2 out_sim (snd (spec_run s ops)) outs.
+Proof.
+  induction ops as [|o ops IH]; intros t s HInv Hh; cbn [ft_run spec_run ft_hist_okb] in *.
+  - exists t, []. cbn. auto.
+  - apply andb_true_iff in Hh. destruct Hh as [H1 H2].
+    destruct (ft_step_sim2 t s o HInv H1) as [t1 [r1 [E1 [HF1 [HI1 Ho1]]]]]. rewrite E1. cbn [bind].
+    destruct (spec_step s o) as [s1 r1'] eqn:Es. cbn [fst snd] in *. rewrite <- HF1 in H2.
+    destruct (IH t1 s1 HI1 H2) as [t2 [outs [E2 [HF2 [HI2 Ho2]]]]]. rewrite E2. cbn [bind].
+    destruct (spec_run s1 ops) as [s2 rs] eqn:Er. cbn [fst snd] in *.
+    exists t2, (r1 :: outs). split; [reflexivity|]. split; [congruence|]. split; [exact HI2|]. constructor; auto.
+Qed.
+
+Theorem FasterTrie_history_lemma : forall F ops, ft_history_ok F ops ->
+  exists t outs, ft_history F ops = Ok (t, outs) /\ Forall2 out_sim (spec_outs ops) outs /\
+    ft_size t = length (spec_store ops) /\
+    forall f, pf_okb F (query_of_factors f 0) = true ->
+      exists l, ft_filter t f = Ok l /\ NoDup l /\ Permutation (filter_spec (spec_store ops) (query_of_factors f 0)) l.
+Proof.
+  intros F ops Hh. unfold ft_history.
+  destruct (ft_run_sim2 ops (ft_new F) (0, []) (ft_new_inv2 F) Hh) as [t [outs [E [HF [HI Ho]]]]].
+  cbn [ft_new fF] in HF. exists t, outs. split; auto. split; auto.
+  unfold spec_store, spec_state. destruct (fst (spec_run (0, []) ops)) as [c st]. cbn [snd]. split.
+  - eapply FInv2_size; eauto.
+  - intros f Hq. rewrite <- HF in Hq. eapply ft_filter_sim2; eauto.
 Qed.
